@@ -35,7 +35,7 @@ def fname_call(f, nargs):
 def corrupt(rng, expr, pos):
     """Returns (operator, corrupted text) or None if the operator does not apply to expr."""
     ops = ["drop-close", "extra-open", "unterminated-string", "unknown-function", "arity-minus", "arity-plus", "trailing-garbage",
-           "trailing-paren", "empty", "truncate", "unterminated-name-ref", "index-overflow", "unknown-input-context", "nameless-reference", "malformed-literal"]
+           "trailing-paren", "empty", "truncate", "unterminated-name-ref", "index-overflow", "unknown-input-context", "nameless-reference", "malformed-literal", "dangling-index"]
     if pos == "filter":
         ops += ["filter-with-name", "filter-with-name"]
     if pos == "sort":
@@ -75,6 +75,10 @@ def corrupt(rng, expr, pos):
         t = rng.choice(["&in-dex", "&index-", "&-index", "&file--name", "&filename", "&indexin-file", "&index_", "&inde", "&indexx", "&", "&index-in", "&file",
                         "&started-at-line", "&startedatlinenumber", "&ended-at-char-number-", "&index-in-file-name", "&file_name_", "&INDEX-"])
         return op, rng.choice([t, "(+ 1 %s)" % t, "(default .a %s)" % t])
+    if op == "dangling-index":
+        # `#` introduces an array index: behind a path element it needs its digits (a truncation right behind the `#`)
+        t = rng.choice([".arr#", ".a#.b", ".a.b#", ".arr#x", ".obj.a#", ".arr#-1", ".arr# 1"])
+        return op, rng.choice([t, "(len %s)" % t, "(= %s 1)" % t, "(default %s .a)" % t, "(map .arr (+ . %s))" % t])
     if op == "index-overflow":
         return op, rng.choice([".arr#18446744073709551616", ".a#99999999999999999999999", "#18446744073709551616", "(len .arr#340282366920938463463374607431768211456)"])
     if op == "unknown-function":
